@@ -14,6 +14,8 @@ Decided:
   R11.3  sources: the simulation curve joins radial_numerical.g, the wall curve radial_numerical.g_bhw, both
          with radial_numerical.lntts and the same corrected long-time values on gFunction.log_time, and they
          are returned in the order (g, g_bhw)
+  R11.5  height interpolation: per time index the interpolant is built from (h, g_lts[h][i]) of every stored height,
+         evaluated in time order; the radius table pairs h with r_b_values[h]
   R11.4  long-time curves: t_s = H^2 / (9 alpha) with alpha = k / rhoCp, times = exp(log_time) * t_s, one
          curve and one radius stored per height; boundary condition MIFT, 8 unequal segments, equivalent
          solver are the defaults and no caller overrides them; the equivalent height is B / (B/H)
@@ -48,6 +50,7 @@ def check(prog: Program, tier: str) -> Result:
     _correction(prog, res)
     _sources(prog, res)
     _longtime(prog, res)
+    _interp_table(prog, res)
     return res
 
 
@@ -319,6 +322,89 @@ def _correction(prog: Program, res: Result):
         res.violation("R11.2", "correction-return", prog.loc(fi, rets[0]), q, "borehole_radius_correction does not return the list of corrected values")
 
 
+def _interp_table(prog: Program, res: Result):
+    """R11.5: the height interpolation is node-exact only if its table is aligned: for every time index i the interpolant is
+    built from the pairs (height h, g_lts[h][i]) of ALL stored heights, the evaluation walks the table in the same order and
+    reads entry i for time i, and the radius table pairs h with r_b_values[h]."""
+    q = f"{GF}.GFunction.g_function_interpolation"
+    fi = prog.func(q)
+    fn = fi.node
+    res.analysed(q)
+
+    def appends_in(node):
+        out = {}
+        for c in ast.walk(node):
+            if isinstance(c, ast.Call) and isinstance(c.func, ast.Attribute) and c.func.attr == "append" and len(c.args) == 1:
+                out.setdefault(ast.unparse(c.func.value), []).append(c)
+        return out
+
+    # ---- building loop: for i, _ in enumerate(self.log_time): ... self.interpolation_table['g'].append(f)
+    build = None
+    for lp in ast.walk(fn):
+        if isinstance(lp, ast.For) and isinstance(lp.iter, ast.Call) and attr_chain(lp.iter.func) == "enumerate" and lp.iter.args and ast.unparse(lp.iter.args[0]) == "self.log_time" \
+                and any(k.startswith("self.interpolation_table[") for k in appends_in(lp)):
+            build = lp
+    if build is None or not (isinstance(build.target, ast.Tuple) and isinstance(build.target.elts[0], ast.Name)):
+        raise AnalysisError(f"{q}: loop that builds the per-time interpolants not found")
+    I = build.target.elts[0].id
+    inner = [lp for lp in build.body if isinstance(lp, ast.For)]
+    itp = [c for c in ast.walk(build) if isinstance(c, ast.Call) and attr_chain(c.func) in ("interp1d", "lagrange") and len(c.args) >= 2]
+    ok = False
+    detail = "shape not understood"
+    if len(inner) == 1 and isinstance(inner[0].target, ast.Name) and ast.unparse(inner[0].iter) in ("self.g_lts", "self.g_lts.keys()") and itp:
+        K = inner[0].target.id
+        ap = appends_in(inner[0])
+        xs = {ast.unparse(c.args[0]) for c in itp}
+        ys = {ast.unparse(c.args[1]) for c in itp}
+        if len(xs) == 1 and len(ys) == 1:
+            xn, yn = next(iter(xs)), next(iter(ys))
+            xa = [inline_single_defs(inner[0], c.args[0]) for c in ap.get(xn, [])]
+            ya = [inline_single_defs(inner[0], c.args[0]) for c in ap.get(yn, [])]
+            okx = len(xa) == 1 and ast.unparse(xa[0]) in (f"float({K})", K)
+            oky = len(ya) == 1 and ast.unparse(ya[0]) == f"self.g_lts[{K}][{I}]"
+            fresh = all(any(isinstance(s_, ast.Assign) and len(s_.targets) == 1 and ast.unparse(s_.targets[0]) == nm and isinstance(s_.value, ast.List) and not s_.value.elts for s_ in build.body)
+                        for nm in (xn, yn))
+            ok = okx and oky and fresh and xn != yn
+            detail = f"x <- {[ast.unparse(a) for a in xa]}, y <- {[ast.unparse(a) for a in ya]}, lists reset per time index: {fresh}"
+    res.ob("R11.5", f"per time index i the height interpolant is built from the pairs (h, g_lts[h][i]) of every stored height ({detail})", ok, prog.loc(fi, build))
+    if not ok:
+        res.violation("R11.5", f"table-build|{detail[:80]}", prog.loc(fi, build), q,
+                      f"the per-time height interpolants are not built from (h, g_lts[h][i]) for every stored height h ({detail}): interpolating at a stored height no longer returns the stored curve")
+    # ---- evaluation loop: for i in range(len(self.log_time)): f = table['g'][i]; g_function.append(f(h_eq))
+    rets = [r for r in ast.walk(fn) if isinstance(r, ast.Return) and isinstance(r.value, ast.Tuple) and len(r.value.elts) == 4]
+    ok2 = False
+    if rets:
+        gname = ast.unparse(rets[-1].value.elts[0])
+        for lp in fn.body:
+            if isinstance(lp, ast.For) and isinstance(lp.target, ast.Name) and isinstance(lp.iter, ast.Call) and attr_chain(lp.iter.func) == "range" \
+                    and len(lp.iter.args) == 1 and ast.unparse(lp.iter.args[0]) == "len(self.log_time)":
+                J = lp.target.id
+                ap = appends_in(lp).get(gname, [])
+                if len(ap) == 1:
+                    v = ast.unparse(inline_single_defs(lp, ap[0].args[0])).replace('"', "'")
+                    HE = ast.unparse(rets[-1].value.elts[3])  # the equivalent height that is handed back (defined as B / (B/H): R11.4)
+                    ok2 = v in (f"self.interpolation_table['g'][{J}]({HE}).tolist()", f"self.interpolation_table['g'][{J}]({HE})")
+        ok2 = ok2 and isinstance(rets[-1].value.elts[3], ast.Name)
+    res.ob("R11.5", "the curve at the equivalent height is [table[i](h_eq) for every time index i, in order]", ok2, prog.loc(fi, rets[-1]) if rets else prog.loc(fi, fn))
+    if not ok2:
+        res.violation("R11.5", "table-eval", prog.loc(fi, rets[-1]) if rets else prog.loc(fi, fn), q, "the interpolated curve is not the per-time interpolants evaluated at the equivalent height in time order")
+    # ---- radius table
+    rb_itp = [c for c in ast.walk(fn) if isinstance(c, ast.Call) and attr_chain(c.func) in ("interp1d", "lagrange") and len(c.args) >= 2 and c not in itp]
+    ok3 = False
+    if rb_itp:
+        xn, yn = ast.unparse(rb_itp[0].args[0]), ast.unparse(rb_itp[0].args[1])
+        for lp in ast.walk(fn):
+            if isinstance(lp, ast.For) and isinstance(lp.target, ast.Name):
+                ap = appends_in(lp)
+                if xn in ap and yn in ap and len(ap[xn]) == 1 and len(ap[yn]) == 1:
+                    H_ = lp.target.id
+                    ok3 = ast.unparse(ap[xn][0].args[0]) in (f"float({H_})", H_) and ast.unparse(ap[yn][0].args[0]) == f"self.r_b_values[{H_}]" \
+                        and all(ast.unparse(c.args[0]) == xn and ast.unparse(c.args[1]) == yn for c in rb_itp)
+    res.ob("R11.5", "the radius interpolant pairs each height h with r_b_values[h]", ok3, prog.loc(fi, rb_itp[0]) if rb_itp else prog.loc(fi, fn))
+    if not ok3:
+        res.violation("R11.5", "rb-table", prog.loc(fi, rb_itp[0]) if rb_itp else prog.loc(fi, fn), q, "the borehole-radius interpolant is not built from the pairs (h, r_b_values[h])")
+
+
 def _sources(prog: Program, res: Result):
     q = f"{GHX}.BaseGHE.grab_g_function"
     fi = prog.func(q)
@@ -487,6 +573,13 @@ def _longtime(prog: Program, res: Result):
 
 
 VARIANTS = [
+    Variant("interpolation table reads the next time index of each stored curve", "break",
+            [(GF, "                    g_value = self.g_lts[key][i]", "                    g_value = self.g_lts[key][i - 1]")], "R11.5"),
+    Variant("height list not reset per time index", "break",
+            [(GF, "                x = []\n                y = []\n                for key in self.g_lts:", "                y = []\n                for key in self.g_lts:"),
+             (GF, "            self.interpolation_table[\"g\"] = []\n", "            self.interpolation_table[\"g\"] = []\n            x = []\n")], "R11.5"),
+    Variant("radius table pairs heights with the keys", "break",
+            [(GF, "                rb_values.append(self.r_b_values[h])", "                rb_values.append(h)")], "R11.5"),
     Variant("values truncated one point later than the abscissae", "break", [(GHX, "            g = g_sts[0:i] + g_lts", "            g = g_sts[0 : i + 1] + g_lts")], "R11.1"),
     Variant("radius correction with the inverse ratio", "break", [(GF, "            g_function_corrected.append(g - log(rb_star / rb))", "            g_function_corrected.append(g - log(rb / rb_star))")], "R11.2"),
     Variant("arguments of the radius correction swapped", "break",
